@@ -141,10 +141,13 @@ fn modp(x: f64) -> f64 {
 /// Guard band `eps` on both ends. `from == to` (mod nothing) is not a question this oracle
 /// answers (that is property C07's subject); callers never generate it.
 pub fn on_arc(x: f64, from: f64, to: f64, eps: f64) -> Tri {
-    let width = if from < to { (to - from).min(TWO_PI) } else { modp(to - from) };
-    if width >= TWO_PI - eps {
+    // an ordinary range of a full turn or more admits everything
+    if from < to && to - from >= TWO_PI {
         return Tri::Yes;
     }
+    // (a wrap-around arc of ALMOST a full turn still has a gap: samples within eps of it are
+    // don't-cares like at the ends of any other arc)
+    let width = if from < to { to - from } else { modp(to - from).min(TWO_PI) };
     let off = modp(x - from);
     // distance outside the arc, measured the short way round
     if off <= width {
